@@ -17,6 +17,7 @@
 #include <atomic>
 #include <condition_variable>
 #include <cstdint>
+#include <exception>
 #include <iostream>
 #include <memory>
 #include <mutex>
@@ -258,6 +259,9 @@ namespace bloch::runtime {
         std::vector<std::weak_ptr<Object>> m_heap;
         // Values that only a C++ temporary holds while evaluation is in progress (argument
         // lists being built, the object under construction). They are collector roots.
+        // A runtime error raised by a user destructor cannot propagate out of the shared_ptr
+        // deleter that runs it; it is parked here and rethrown at the next statement boundary.
+        std::exception_ptr m_pendingDestructorError;
         std::vector<const std::vector<Value>*> m_pendingArgs;
         std::vector<std::shared_ptr<Object>> m_pendingObjects;
         RuntimeClass* m_currentClassCtx = nullptr;
